@@ -64,6 +64,17 @@ bool frame_on_stack(const char *name, int slot) {
     for (auto &f : W->frames) if (!f.is_cb && f.slot == slot && f.name == name) return true;
     return false;
 }
+// the module is in the middle of leaving its context: its own deregistration is on the call stack, or it is being replaced (its stop
+// callback runs inside the registration of a namesake). The library has already taken it out of the context's module table.
+bool leaving(int slot) {
+    if (frame_on_stack("dereg", slot)) return true;
+    for (size_t i = 0; i < W->frames.size(); i++) {
+        const Frame &a = W->frames[i];
+        if (a.is_cb || a.name != "reg" || a.slot < 0 || a.slot == slot || W->slots[a.slot].name != W->slots[slot].name) continue;
+        for (size_t j = i + 1; j < W->frames.size(); j++) if (W->frames[j].is_cb && W->frames[j].cb == CB_STOP && W->frames[j].slot == slot) return true;
+    }
+    return false;
+}
 bool frame_on_stack_any(const char *name) {
     for (auto &f : W->frames) if (!f.is_cb && f.name == name) return true;
     return false;
@@ -486,7 +497,7 @@ static void loop_end(int rc) {
     // model: a non-persistent context left without modules is released when the loop returns
     if (W->has_ctx && !(W->ctx_flags & M_CTX_PERSIST)) {
         int left = 0;
-        for (auto &o : W->slots) if (o.ctx_gen == W->ctx_registrations && o.st != ST_NONE && o.st != ST_ZOMBIE && !frame_on_stack("dereg", o.idx)) left++;   // (a module whose deregistration is in progress has left the context already)
+        for (auto &o : W->slots) if (o.ctx_gen == W->ctx_registrations && o.st != ST_NONE && o.st != ST_ZOMBIE && !leaving(o.idx)) left++;   // (a module whose deregistration is in progress has left the context already)
         if (left == 0) W->has_ctx = false;
     }
 }
@@ -610,7 +621,7 @@ void exec_op(const Op &op, bool in_cb, int cb_slot) {
     if (n == "ctx_finalize") {
         ApiScope a("ctx_finalize", -1);
         int rc = a.done(m_ctx_finalize());
-        if (rc == 0) W->ctx_finalized = true;
+        if (rc == 0) { W->ctx_finalized = true; W->ctx_finalized_gseq = R->gseq; }
         sim::tr("ctx_finalize", rc);
         return;
     }
@@ -787,7 +798,7 @@ void exec_op(const Op &op, bool in_cb, int cb_slot) {
         if (rc == 0 && W->has_ctx && !(W->ctx_flags & M_CTX_PERSIST) && !W->ctx_looping && s.ctx_gen == W->ctx_registrations) {
             // model: an idle non-persistent context is released with its last module
             int left = 0;
-            for (auto &o : W->slots) if (o.ctx_gen == W->ctx_registrations && o.st != ST_NONE && o.st != ST_ZOMBIE && !frame_on_stack("dereg", o.idx)) left++;   // (a module whose deregistration is in progress has left the context already)
+            for (auto &o : W->slots) if (o.ctx_gen == W->ctx_registrations && o.st != ST_NONE && o.st != ST_ZOMBIE && !leaving(o.idx)) left++;   // (a module whose deregistration is in progress has left the context already)
             bool in_ctx_dereg = frame_on_stack_any("ctx_dereg");
             if (left == 0 && !in_ctx_dereg) W->has_ctx = false;
         }
